@@ -47,24 +47,27 @@ Proof. intros fs sfx dirs name level rest f src pd. exact (norm_agree fs sfx dir
 Print Assumptions C07_norm_package_agrees.
 
 (* Submodule proposals, lower bound: every child pkgutil.iter_modules enumerates in the package's
-   directory (or in the roots, for the top level) is proposed. *)
+   directory (or in the roots, for the top level) is proposed. Hypotheses: sfx_ordered (no suffix stands
+   before a longer suffix ending with it, so supp's first matching suffix is getmodulename's longest
+   one); dir_ok2 (module-like entries of the listed directory are regular files, and pkgutil and supp
+   agree on which sub-directories are packages). *)
 Theorem C07_children_lower : forall fs ls sfx loaded dirs pkg m,
-  dom fs sfx dirs pkg = true ->
-  (forall d, In d (listed fs sfx dirs pkg) -> dir_ok fs ls sfx sfx d = true) ->
+  sfx_ordered sfx = true -> dom fs sfx dirs pkg = true ->
+  (forall d, In d (listed fs sfx dirs pkg) -> dir_ok2 fs ls sfx d = true) ->
   In m (children_importlib fs ls sfx dirs pkg) -> In m (list_packages fs ls sfx loaded dirs pkg).
-Proof. exact children_lower. Qed.
+Proof. exact children_lower2. Qed.
 Print Assumptions C07_children_lower.
 
 (* Upper bound: whatever is proposed is already loaded (a key pkg.m[.…] of sys.modules) or importlib
    finds a file for pkg.m. *)
 Theorem C07_children_upper : forall fs ls sfx loaded dirs pkg m,
-  In py sfx -> dom fs sfx dirs pkg = true ->
+  sfx_ordered sfx = true -> In py sfx -> dom fs sfx dirs pkg = true ->
   (forall d n, In d (listed fs sfx dirs pkg) -> In n (ls d) -> exists_ fs (d ++ [n]) = true) ->
-  (forall d, In d (listed fs sfx dirs pkg) -> dir_ok fs ls sfx sfx d = true) ->
+  (forall d, In d (listed fs sfx dirs pkg) -> dir_ok2 fs ls sfx d = true) ->
   In m (list_packages fs ls sfx loaded dirs pkg) ->
   (exists L tail, In L loaded /\ L = pkg ++ m :: tail) \/
   (exists h, importlib_walk fs sfx dirs (pkg ++ [m]) = RFound h).
-Proof. exact children_upper. Qed.
+Proof. exact children_upper2. Qed.
 Print Assumptions C07_children_upper.
 
 (* join_pkg (split_pkg s) = s for every string that contains a dot (any relative name, any name
@@ -76,6 +79,22 @@ Print Assumptions C07_join_split.
 Theorem C07_split_single : forall s, has_dot s = false -> s <> [] -> split_pkg s = ([], s).
 Proof. exact split_single. Qed.
 Print Assumptions C07_split_single.
+
+
+(* On written names: '.'*level + 'a.b.c' (components non-empty and dot-free, any level, any number of
+   components) is cut by split_pkg into the written name of its package part and the last component,
+   and join_pkg puts the two back together unless there is no package part at all. *)
+Theorem C07_split_written : forall level cs c,
+  forallb comp_ok cs = true -> comp_ok c = true ->
+  split_pkg (render level (cs ++ [c])) = (render level cs, c).
+Proof. exact split_render. Qed.
+Print Assumptions C07_split_written.
+
+Theorem C07_join_written : forall level cs c,
+  forallb comp_ok cs = true -> (level <> 0 \/ cs <> []) ->
+  join_pkg (render level cs) c = render level (cs ++ [c]).
+Proof. exact join_render. Qed.
+Print Assumptions C07_join_written.
 
 (* ------------------------------------------------------------------------------------------------
    Non-vacuity and the defects of the snapshot, on concrete trees. *)
@@ -155,10 +174,17 @@ Proof. vm_compute. repeat split; reflexivity. Qed.
 Definition tree3 : list (path * kind) := (tree1 ++ [ (P ["r1"; "pkg"; "a.b.py"], File) ])%list.
 Example C07_example_children :
   dom (fs_of tree3) sfx_fixed roots1 (P ["pkg"]) = true /\
-  forallb (dir_ok (fs_of tree3) (ls_of tree3) sfx_fixed sfx_fixed) (listed (fs_of tree3) sfx_fixed roots1 (P ["pkg"])) = true /\
+  forallb (dir_ok2 (fs_of tree3) (ls_of tree3) sfx_fixed) (listed (fs_of tree3) sfx_fixed roots1 (P ["pkg"])) = true /\
+  sfx_ordered sfx_fixed = true /\
+  sfx_ordered (map S_ [".cpython-312-x86_64-linux-gnu.so"; ".abi3.so"; ".so"; ".py"; ".pyc"]) = true /\
+  sfx_ordered (map S_ [".so"; ".abi3.so"]) = false /\
   children_importlib (fs_of tree3) (ls_of tree3) sfx_fixed roots1 (P ["pkg"]) = P ["sub"; "ext"] /\
   list_packages (fs_of tree3) (ls_of tree3) sfx_fixed [P ["pkg"; "loaded"; "x"]] roots1 (P ["pkg"]) = P ["loaded"; "sub"; "ext"].
 Proof. vm_compute. repeat split; reflexivity. Qed.
+
+Example C07_example_written :
+  render 2 [S_ "foo"; S_ "boo"] = S_ "..foo.boo" /\ forallb comp_ok [S_ "foo"; S_ "boo"] = true.
+Proof. vm_compute. split; reflexivity. Qed.
 
 Example C07_example_split :
   split_pkg (S_ "..foo.boo") = (S_ "..foo", S_ "boo") /\ split_pkg (S_ ".foo") = (S_ ".", S_ "foo") /\
